@@ -7,6 +7,7 @@ if [ "$1" = "full" ] || [ ! -d $S/safehtml ]; then
   rm -rf $S; mkdir -p $S/safehtml $S/ov
   rsync -a --exclude .git /repo/ $S/safehtml/
   cp -r /verif/sim/simrt $S/safehtml/simrt
+  python3 /verif/sim/cf_patch.py $S/safehtml
   (cd $S/safehtml && /verif/bin/instrument -dir . -pkg ./template -tags verif -report $S/rep.json && /verif/bin/instrument -dir . -pkg . -tags verif -yieldfn Tick -sitebase 20000 && /verif/bin/instrument -dir . -pkg ./internal/safehtmlutil -tags verif -yieldfn Tick -sitebase 30000 && /verif/bin/instrument -dir . -pkg text/template -std -out $S/ov -overlay $S/overlay.json -sitebase 100000 -report $S/rep2.json)
 fi
 rm -rf $S/safehtml/simrt; cp -r /verif/sim/simrt $S/safehtml/simrt
